@@ -1,5 +1,6 @@
 import SqlModel.Bookkeeping
 import SqlProofs.IdentShape.Contexts
+import SqlProofs.ClauseShape.Skeletons
 import SqlProofs.LeadingKeyword
 import SqlModel
 import SqlProofs.SplitValue
@@ -199,6 +200,21 @@ def cmdSkelTexts : String :=
     ",".intercalate (sk.text.map hexOf) ++ "|" ++ (match sk.qual with | none => "-" | some q => ",".intercalate (q.map hexOf)) ++ "|" ++
     ",".intercalate (sk.name.map hexOf) ++ "|" ++ (match sk.alias with | none => "-" | some a => ",".intercalate (a.map hexOf)))
 
+/-- `clausecheck`: evaluate the C13 clause table with the compiled model: `ok <passing> <total> <hex texts of failing skeletons …>`
+(for a pinned skeleton "passing" means: decided NOT canonical) -/
+def cmdClauseCheck : String :=
+  let sks := Sql.Acc.clauseSkels
+  let bad := sks.filter (fun sk => !Sql.Acc.clauseCheck sk)
+  s!"ok {sks.length - bad.length} {sks.length}" ++ String.join (bad.map fun sk => " " ++ ",".intercalate (sk.text.map hexOf))
+
+/-- `clausetexts`: `kind|pinned|text|target|item;item;…` per skeleton (hex, comma-joined code points) -/
+def cmdClauseTexts : String :=
+  let hx (t : Text) : String := if t.isEmpty then "-" else ",".intercalate (t.map hexOf)
+  "ok " ++ " ".intercalate (Sql.Acc.clauseSkels.map fun sk =>
+    let k := match sk.kind with
+      | .identList => "identList" | .params => "params" | .cases => "cases" | .comparison => "comparison" | .typedLiteral => "typedLiteral"
+    s!"{k}|{if sk.pinned then 1 else 0}|{hx sk.text}|{hx sk.target}|" ++ ";".intercalate (sk.items.map hx))
+
 -- >>> bookkeeping (heap) command ---------------------------------------------------------------
 /-- `heap <leaf> … # <op> …`: leaf = comma-joined hex code points (`-` = empty); op = `self:Class:start:stop:includeEnd:extend`.
 Answers `ok <result> … | <object> …` with result = id of `grp` or the exception name, object = `id:parent:kids:Class:value`. -/
@@ -245,6 +261,8 @@ def handle (line : String) : String :=
   | "heap" :: rest => cmdHeap rest
   | "skelcheck" :: _ => cmdSkelCheck
   | "skeltexts" :: _ => cmdSkelTexts
+  | "clausecheck" :: _ => cmdClauseCheck
+  | "clausetexts" :: _ => cmdClauseTexts
   | "leadhyp" :: rest => cmdLeadHyp (parseText rest)
   | "delimsafe" :: rest => cmdDelimSafe (parseText rest)
   | "skel" :: rest => cmdWsSkel rest
